@@ -20,6 +20,7 @@ type cfg struct {
 	rootOp   bool
 	depth    int
 	c11      bool // recovery + crash oracles
+	c13      bool // checkpoint / rollback ops and oracle
 	maxNoDup int  // depth used when the dump is unavailable
 }
 
@@ -42,6 +43,9 @@ func (c cfg) ops() []Op {
 	}
 	if c.rootOp {
 		ops = append(ops, Op{K: 'R'})
+	}
+	if c.c13 {
+		ops = append(ops, Op{K: 'P'}, Op{K: 'B'}, Op{K: 'T'})
 	}
 	return ops
 }
@@ -74,20 +78,37 @@ func runCfg(rep *rt.Report, c cfg, deadline time.Time, classify func(w *World, l
 		Name: c.name, NOps: len(ops), MaxDepth: depth, Workers: rt.Workers(), Deadline: deadline,
 		OpName: func(i int) string { return ops[i].String() },
 		Enabled: func(h []uint8, op int) bool {
-			if ops[op].K != 'L' {
+			k := ops[op].K
+			if k != 'L' && k != 'P' && k != 'B' && k != 'T' {
 				return true
 			}
-			// reload only when nothing is pending since the last commit
-			pending := false
+			// reload / checkpoint / rollback only when nothing is pending since the last commit
+			pending, commits, chk, since, rolled, gcAfter := false, 0, false, 0, false, 0
 			for _, x := range h {
 				switch ops[x].K {
 				case 'U', 'X':
 					pending = true
 				case 'C':
 					pending = false
+					commits++
+					since++
+					gcAfter = 0
+				case 'G':
+					gcAfter++
+				case 'P':
+					chk, since = true, 0
+				case 'B', 'T':
+					rolled = true
 				}
 			}
-			return !pending
+			switch k {
+			case 'L':
+				return !pending && !chk
+			case 'P':
+				return !pending && commits >= 1 && !chk
+			default:
+				return chk && since == 1 && !pending && !rolled && gcAfter <= 1 // at most one intervening GC pass
+			}
 		},
 		Run: func(h []uint8) seq.Outcome {
 			w, f, prefixFailed := build(c.shared, ops, h)
@@ -102,8 +123,13 @@ func runCfg(rep *rt.Report, c cfg, deadline time.Time, classify func(w *World, l
 				return classify(w, last, f)
 			}
 			key := w.Key()
-			if c.c11 {
+			if c.c11 || c.c13 {
 				if f := c11Oracle(w, last); f != "" {
+					return classify(w, last, f)
+				}
+			}
+			if c.c13 && (last.K == 'B' || last.K == 'T') {
+				if f := c13Oracle(w, last); f != "" {
 					return classify(w, last, f)
 				}
 			}
